@@ -74,9 +74,15 @@ def paramflow_pass(tier, known, modules=("skactiveml.pool", "skactiveml.pool.mul
                 except Exception as ex:
                     found = [("error", repr(ex)[:100])]
                 res["validated"] += 1
-                want = {"param_write": "get_params_changed", "alias_mutation": "argument_mutated",
-                        "fits_caller_model": "argument_mutated"}.get(e["kind"])
-                hit = [f for f in found if f[0] == want and (e["kind"] != "param_write" or e["what"] in f[1])]
+                wants = {"param_write": ("get_params_changed",), "alias_mutation": ("argument_mutated", "get_params_changed"),
+                         "fits_caller_model": ("argument_mutated",)}.get(e["kind"], ())
+                for tok in e["what"].replace(")", " ").replace(",", " ").split():
+                    if tok.startswith("param:") and tok[6:] in DICT_CANDIDATES and cfg.get(tok[6:], {}).get("v", True) is not None:
+                        cfg[tok[6:]] = {"dict": True}   # the aliased parameter is a caller-owned dict
+                if any(v == {"dict": True} for v in cfg.values()):
+                    found = R.replay_query_side_effects(K, entry, cfg, dict_candidates=DICT_CANDIDATES,
+                                                        args_config={a: v for a, v in e["args"].items() if "arg:" + a in rel})
+                hit = [f for f in found if f[0] in wants and (e["kind"] != "param_write" or e["what"] in f[1])]
                 desc = dict(cls=name, kind=e["kind"], what=e["what"], where=f"{e['where']}:{e['line']}", config=cfg)
                 if hit:
                     confirmed_here += 1
